@@ -580,8 +580,8 @@ func vQRunCase(r *rand.Rand, out *vOut, kind string, b, n, s, steps int, shrinkO
 						sig = "deque:panic:" + op
 					}
 					if d, ok := drv.(interface{ drifted() bool }); ok && d.drifted() {
-						// db.go's restructuringLong*Queue frees trailing nodes without `nodeIndex--`; everything that
-						// goes wrong afterwards is one defect
+						// db.go's restructuringLong*Queue left `nodeIndex` inconsistent with the allocated nodes (repaired in
+						// /repo f18505b); everything that goes wrong afterwards is that one defect
 						sig = "long:restructure-keeps-nodeIndex"
 					}
 					out.monitor(sig, fmt.Sprintf("%s queue(%d,%d,%d): %s returned %s, a plain deque returns %s (step %d)", kind, b, n, s, opTxt, got, want, step),
@@ -597,12 +597,53 @@ func vQRunCase(r *rand.Rand, out *vOut, kind string, b, n, s, steps int, shrinkO
 	out.emit(c.line(len(c.ops)), strings.Join(c.obs, ";"))
 }
 
+// vQRunFixed replays a fixed sequence (the witnesses proved in Slock/Properties/C20.lean) on the real code, so that
+// the differential confirms that the real queues do what the Lean witnesses say. Not monitored.
+func vQRunFixed(out *vOut, kind string, b, n, s int, ops string) {
+	var drv vQDrv
+	switch kind {
+	case "lq":
+		drv = vNewQImpl[*Lock](NewLockQueue(int32(b), int32(n), int32(s)), func() *Lock { return &Lock{} })
+	case "long":
+		drv = vNewLongDrv(b, n, s, false)
+	}
+	c := &vQCase{kind: kind, b: b, n: n, s: s}
+	for _, o := range strings.Split(ops, ";") {
+		op, arg := o, 0
+		if i := strings.IndexByte(o, ':'); i >= 0 {
+			op = o[:i]
+			arg, _ = strconv.Atoi(o[i+1:])
+		}
+		obs := "panic"
+		func() {
+			defer func() {
+				if e := recover(); e != nil {
+					obs = "panic"
+				}
+			}()
+			obs = drv.do(op, arg)
+		}()
+		c.ops = append(c.ops, o)
+		c.obs = append(c.obs, obs)
+		if obs == "panic" {
+			break
+		}
+	}
+	out.emit(c.line(len(c.ops)), strings.Join(c.obs, ";"))
+}
+
 func init() {
 	vModes["queue"] = func(t *testing.T) {
 		r := rand.New(rand.NewSource(int64(vEnvInt("VERIF_SEED", 1))))
 		n := vEnvInt("VERIF_N", 100)
 		out := vOpen("queue")
 		defer out.close()
+		vQRunFixed(out, "lq", 1, 3, 4, "pushl:1;len")
+		vQRunFixed(out, "lq", 1, 1, 4, "push:1;push:2;push:3;push:4;push:5;len;shrink:0;len;st;pop;pop;pop;pop;pop;iter")
+		vQRunFixed(out, "lq", 1, 1, 1, "push:1;push:2;push:3;push:4;push:5;push:6;push:7;push:8;popr;popr;pop;pop;pop;pop;pop;pop;st;restr;st;push:9;push:10;push:11;push:12")
+		vQRunFixed(out, "long", 3, 3, 1, "push:1;push:2;push:3;push:4;remove:1;remove:2;remove:3;remove:4;st;restr;st;push:5;push:6;push:7;push:8")
+		vQRunFixed(out, "long", 4, 1, 1, "push:1;push:2;push:3;push:4;push:5;push:6;push:7;push:8;remove:1;remove:2;restr;st;iter;remove:3;remove:4;remove:5;remove:6;remove:7;remove:8;restr;st;iter;push:9;push:10;push:11;push:12;push:13;push:14;push:15;push:16;iter;len")
+		vQRunFixed(out, "lq", 2, 2, 1, "push:1;push:2;push:3;push:4;push:5;push:6;push:7;push:8;push:9;pop;pop;pop;pop;hole:1;iter;resize;iter;free;iter;restr;iter;push:10;iter;reset;iter;push:11;push:12;push:13;rellac;iter;st")
 		prod := [][3]int{{4, 16, 4}, {2, 4, 8}, {2, 16, 4}, {4, 64, 2}, {16, 64, 3}, {1, 8, 256}, {2, 2, 1}, {1, 3, 4}, {2, 6, 4}}
 		for it := 0; it < n; it++ {
 			for _, kind := range []string{"lmq", "lq", "lcq", "long"} {
@@ -623,5 +664,7 @@ func init() {
 				vQRunCase(r, out, kind, b, nn, s, steps, r.Intn(8) == 0)
 			}
 		}
+		// the lock.go containers (ring, priority ring, holder queue, wait queue): zz_verif_queue2_test.go
+		vQueue2Run(r, out, (n+3)/4)
 	}
 }
